@@ -20,8 +20,12 @@ def run(tier, seed):
     nat = D.run_native(binary, "c13", tier, seed)
     bounded.add_native_violations(vd, nat, "report text depends only on the set of findings (canonical rendering)")
     ndir = D.run_native(binary, "c13-dir", tier, seed)
+    # an environment in which the creation order does not change the listing order weakens this part but is not a failure of the
+    # property: recorded as an assumption, the pattern-order / repeated-run / fresh-process comparisons still ran
+    notes = [v for v in ndir.get("violations", []) if "listing-order-not-variable" in v["key"] or "feature-not-observed" in v["key"]]
+    ndir["violations"] = [v for v in ndir.get("violations", []) if v not in notes]
     bounded.add_native_violations(vd, ndir, "same directory content (created in different orders, patterns configured in different orders, fresh process) => byte-identical reports")
-    ev = bounded.evidence_from_native(nat, [])
+    ev = bounded.evidence_from_native(nat, ["c13-dir: " + v["what"][:300] for v in notes])
     ev["coverage"]["evaluations"] += int(ndir.get("evaluations", 0))
     ev["coverage"]["directory_part"] = {k: ndir.get(k) for k in ("evaluations", "distinct_nontrivial", "rule", "bound", "wall_s", "cmd")}
     return vd.finish(ev)
